@@ -86,7 +86,7 @@ def gen_config():
         except Exception:
             raise TieBroken("config." + name, f"cannot evaluate {v}")
     lines = ["(* GENERATED from src/config.rs by gen/gen.py - do not edit *)",
-             "From Coq Require Import NArith.", "Open Scope N_scope.", ""]
+             "From Coq Require Import NArith.", "Local Open Scope N_scope.", ""]
     for n in ["INITIAL_FREE_CELLS", "MAX_RECURSION_DEPTH", "GUI_OUTPUT_BUFFER_SIZE", "CALL_STACK_SIZE"]:
         lines.append(f"Definition {n} : N := {usize(n)}.")
     for n in ["MAXIMUM_FREE_RATIO", "MINIMUM_FREE_RATIO", "ALLOCATION_RATIO"]:
@@ -141,7 +141,7 @@ def gen_numbers():
         raise TieBroken("numbers", "no native function descriptors found")
     lines = ["(* GENERATED from src/native/numbers/mod.rs by gen/gen.py - do not edit *)",
              "From PL Require Import Data.Arith.", "From Coq Require Import String List.", "Import ListNotations.",
-             "Open Scope string_scope.", "",
+             "Local Open Scope string_scope.", "",
              "Definition numbers_impl : list (string * arith_impl) :=", "  ["]
     items = []
     for const, fn, lname in consts:
@@ -150,7 +150,102 @@ def gen_numbers():
     lines.append("  ].")
     return "\n".join(lines) + "\n"
 
-GENERATORS = {"Config_gen.v": gen_config, "Numbers_gen.v": gen_numbers}
+# ---------------------------------------------------------------------------
+# native table: load order, name, kind, parameter names, documentation, validate_args! signature
+# ---------------------------------------------------------------------------
+def rust_unescape(lit, raw):
+    if raw:
+        return lit
+    out, i = [], 0
+    while i < len(lit):
+        c = lit[i]
+        if c == "\\" and i + 1 < len(lit):
+            n = lit[i + 1]
+            if n == "n": out.append("\n"); i += 2
+            elif n == "t": out.append("\t"); i += 2
+            elif n == "r": out.append("\r"); i += 2
+            elif n == "\\": out.append("\\"); i += 2
+            elif n == '"': out.append('"'); i += 2
+            elif n == "'": out.append("'"); i += 2
+            elif n == "0": out.append("\0"); i += 2
+            elif n == "\n":
+                i += 2
+                while i < len(lit) and lit[i] in " \t\n\r":
+                    i += 1
+            else:
+                raise TieBroken("native docs", "unsupported escape \\" + n)
+        else:
+            out.append(c); i += 1
+    return "".join(out)
+
+LABELS = {"Any": "TAny", "Nil": "TNil", "Number": "TNumber", "Character": "TCharacter", "Cons": "TCons", "List": "TList",
+          "String": "TString", "Symbol": "TSymbol", "Function": "TFunction", "Trap": "TTrap"}
+
+def native_table():
+    modt = src("src/native/mod.rs")
+    order = re.findall(r"load_native_function\(mem,\s*(\w+)::(\w+)\);", modt)
+    if not order:
+        raise TieBroken("native table", "no load_native_function calls found")
+    table = []
+    for module, const in order:
+        t = src(f"src/native/{module}/mod.rs")
+        m = re.search(r"pub const " + const + r"\s*:\s*NativeFunctionMetaData\s*=\s*NativeFunctionMetaData\s*\{(.*?)\n\};", t, re.S)
+        if not m:
+            raise TieBroken(f"native {module}::{const}", "descriptor not found")
+        body = m.group(1)
+        def field(name, pat):
+            mm = re.search(name + r"\s*:\s*" + pat, body, re.S)
+            if not mm:
+                raise TieBroken(f"native {module}::{const}", f"field {name} not found")
+            return mm
+        fn = field("function", r"(\w+)\s*,").group(1)
+        lname = field("name", r'"([^"]*)"').group(1)
+        kind = field("kind", r"FunctionKind::(\w+)").group(1)
+        params = re.findall(r'"([^"]*)"', field("parameters", r"&\[(.*?)\]").group(1))
+        dm = re.search(r'documentation\s*:\s*(r?)"((?:[^"\\]|\\.)*)"', body, re.S)
+        if not dm:
+            raise TieBroken(f"native {module}::{const}", "documentation not found")
+        doc = rust_unescape(dm.group(2), dm.group(1) == "r")
+        fb = fn_body(t, fn)
+        vm = re.search(r"validate_args!\(\s*mem\s*,\s*" + const + r"\.name\s*,\s*args\s*((?:,\s*\(let\s+\w+\s*:\s*(?:TypeLabel::)?\w+\s*\))*)\s*\)", fb)
+        if vm:
+            sig = [LABELS[x] for x in re.findall(r":\s*(?:TypeLabel::)?(\w+)\s*\)", vm.group(1))]
+            has_sig = True
+        else:
+            sig, has_sig = [], False
+        depth_check = bool(re.search(r"if recursion_depth > config::MAX_RECURSION_DEPTH \{\s*return Err\(make_error\(mem, \"stackoverflow\", " + const + r"\.name", fb))
+        # position of the depth check relative to the validation
+        table.append(dict(module=module, const=const, fn=fn, name=lname, kind=kind, params=params, doc=doc, sig=sig, has_sig=has_sig, depth_check=depth_check))
+    return table
+
+def gen_natives():
+    table = native_table()
+    lines = ["(* GENERATED from src/native/mod.rs and src/native/*/mod.rs by gen/gen.py - do not edit *)",
+             "From PL Require Import Data.Val.", "From Coq Require Import String List.", "Import ListNotations.", "Local Open Scope N_scope.", "",
+             "Record native_info := { n_name : text; n_macro : bool; n_params : list text; n_doc : text;",
+             "                        n_sig : option (list tlabel); n_depth_check : bool }.", "",
+             "Definition native_table : list native_info :=", "  ["]
+    items = []
+    for e in table:
+        sig = "Some [" + "; ".join(e["sig"]) + "]" if e["has_sig"] else "None"
+        items.append("   {| n_name := %s; n_macro := %s; n_params := [%s]; n_doc := %s;\n      n_sig := %s; n_depth_check := %s |}" % (
+            coq_text(e["name"]), "true" if e["kind"] == "Macro" else "false", "; ".join(coq_text(p) for p in e["params"]), coq_text(e["doc"]),
+            sig, "true" if e["depth_check"] else "false"))
+    lines.append(";\n".join(items))
+    lines.append("  ].")
+    return "\n".join(lines) + "\n"
+
+# ---------------------------------------------------------------------------
+# the Lisp sources, verbatim, as code points
+# ---------------------------------------------------------------------------
+def gen_lisp():
+    lines = ["(* GENERATED: the verbatim text of the Lisp sources as code points - do not edit *)",
+             "From Coq Require Import NArith List.", "Import ListNotations.", "Local Open Scope N_scope.", ""]
+    for name, path in [("prelude_src", "src/prelude.lisp"), ("repl_src", "src/repl.lisp"), ("debugger_src", "src/debugger.lisp")]:
+        lines.append(f"Definition {name} : list N := {coq_text(src(path))}.")
+    return "\n".join(lines) + "\n"
+
+GENERATORS = {"Config_gen.v": gen_config, "Numbers_gen.v": gen_numbers, "NativeTable_gen.v": gen_natives, "LispSrc_gen.v": gen_lisp}
 
 def main():
     status = {"generated": [], "changed": [], "broken": []}
